@@ -29,7 +29,7 @@ RULE = ('programs = distinct Table D sequences of master versions >= 19 and loca
         'Table B attributes), sample-file templates, generated and hand-made operator templates (scoped); per program up to '
         'K assignments of delayed factors in 0..3 and bitmap patterns (all when <= K; K = 6 quick / 60 thorough), compressed '
         'and uncompressed; histories over caches of size 0,1,2,n.  Non-trivial = the program has a loop or an operator; '
-        'distinct by SHA-1 of the message bytes')
+        'distinct by SHA-1 of the message bytes; several data contents per program; table-sensitive pairs through marker / first-order / associated-field forms; `pybufrkit compile` output loaded back and executed')
 ASSUMPTIONS = ['only templates whose operators are opened and closed within one replication scope are compared (statement\'s proviso; predicate mon/gen/templates.scoped)',
                'marker operators while 204 is in force are not generated (grey, DESIGN 2.3)',
                'exceptions are compared by class', 'data come from R\'s producer; programs R cannot produce data for are counted, not compared']
